@@ -160,6 +160,7 @@ package tree
 //@   requires em != nil && e != nil
 //@   allocates EdgeIndexInfo, hashmap.KeyValue, []hashmap.Bucket, []*hashmap.KeyValue, iface
 //@   assigns hashmap.HashMap.mapArray, hashmap.HashMap.capacity, hashmap.HashMap.total, elems("hashmap.Bucket"), elems("*hashmap.KeyValue"), hashmap.KeyValue.Value, ghost(lock_Lock), ghost(lock_Unlock)
+//@   ensures [lock_released] ghost(lock_Lock) - ghost(lock_Unlock) == old(ghost(lock_Lock) - ghost(lock_Unlock))
 
 // The worker closure of CompareWeighted (properties C08, C11)
 //@ func tree.CompareWeighted$1
@@ -191,3 +192,12 @@ package tree
 //@   requires stats != nil && !closed(stats)
 //@   ensures [closed_exactly_once] closed(stats)
 //@   ensures [closes_after_waiting] ghost(wg_wait) == old(ghost(wg_wait)) + 1 && ghost(ch_closed) == old(ghost(ch_closed)) + 1
+
+// Thin contracts (flag treeop: may rewrite tree objects, nothing else) for operations used by callers under contract
+//@ func (*tree.Tree).Delete
+//@   flag treeop
+//@   requires t != nil
+//@ func (*tree.Tree).Clone
+//@   flag treeop
+//@   requires t != nil
+//@   ensures [fresh_tree] result != nil && fresh(result)
